@@ -29,11 +29,13 @@ import sizeleg  # noqa: E402  (images with valid streams that expand to another 
 import aliasleg  # noqa: E402  (descriptors that collide on a part of a cache key: aliased locations / size words / fragment entries: props/C10/aliasleg.py)
 import errleg  # noqa: E402  (hostile streams aimed at each decoder's error exits + repeated failing queries: props/C10/errleg.py)
 import lowdirleg  # noqa: E402  (the low-level readdir API with a reused cursor object: props/C10/lowdirleg.py)
+import lifeleg  # noqa: E402  (streams / directory cursors kept open across queries that replace what each cache holds: props/C10/lifeleg.py)
 import xfineleg  # noqa: E402  (the fine-grained xattr reader API: crafted xattr sections + op generators: props/C10/xfineleg.py)
 LEVEL = "proof"
 ENV = dict(os.environ, ASAN_OPTIONS="detect_leaks=0:allocator_may_return_null=1:max_allocation_size_mb=3000",
            UBSAN_OPTIONS="print_stacktrace=1")
 U64 = (1 << 64) - 1
+LIFE_LEG = os.environ.get("C10_LIFE", "1") != "0"           # lifetime leg (props/C10/lifeleg.py); 0 = the case list as it was (for timing)
 REPEAT_P = float(os.environ.get("C10_REPEAT_P", "0.12"))   # gen_ops: probability of executing a query again (0 = the generator as it was)
 
 
@@ -888,6 +890,32 @@ def run(ctx):
                 pd = os.path.join(ctx.scratch, "lowdir-dmg%d.sqfs" % k)
                 open(pd, "wb").write(dd)
                 cases.append(Case("lowdir-dmg%d" % k, pd, hdr + lowdirleg.aimed_ops(rnd, linfo, 80 if quick else 150), "damaged"))
+        # --- objects with a lifetime: OPEN ; queries that replace what each cache of the shared readers holds ; READ (part) ;
+        #     more of them ; READ ... to the end.  Image with >= 8 fragment blocks and every file layout ---
+        try:
+            if not LIFE_LEG:
+                raise KeyError("off")
+            fdata, _finfo = lifeleg.build_image(rnd)
+            f = image_facts(fdata)
+            aim = lifeleg.Aim(f)
+            if not (aim.usable() and len(aim.frag_blocks) >= 3):
+                raise RuntimeError("image has %d fragment blocks" % len(aim.frag_blocks))
+        except KeyError:
+            fdata = None
+        except Exception as e:
+            fdata = None
+            ctx.violation("machinery:life-leg", "cannot build the many-fragment-blocks image: %r" % (e,), dict(kind="machinery", detail=repr(e)),
+                          no_input=True)
+        if fdata is not None:
+            p = os.path.join(ctx.scratch, "life.sqfs")
+            open(p, "wb").write(fdata)
+            hdr = gen_ops(rnd, f, 3)[:3]
+            for k, ops in enumerate(lifeleg.systematic(rnd, aim, 120 if quick else 60)):
+                cases.append(Case("life-s%d" % k, p, hdr + ops, "lifetime"))
+            for k in range(6 if quick else 30):
+                cases.append(Case("life-h%d" % k, p, hdr + lifeleg.history(rnd, aim, 120 if quick else 250), "lifetime"))
+            stats["life_foreign"] = stats.get("life_foreign", 0) + aim.foreign
+            stats["life_fragblocks"] = len(aim.frag_blocks)
         ctx.log("crafted images ready")
         # --- real images ---
         combos = [("gzip", 4096, True), ("xz", 8192, False), ("lz4", 4096, False), ("zstd", 16384, True)]
@@ -912,7 +940,13 @@ def run(ctx):
             other = lambda: [o for o in gen_ops(rnd, f, 5)[3:] if not o.startswith("M ")][:3]   # noqa: E731
             for k in range(2 if quick else 5):
                 cases.append(Case("%s-x%d" % (nm, k), p, hdr + xfineleg.fine_ops(rnd, f["xattr_ids"], nops, None, other), "real", alloc_mb=64))
-            # api_agree on every file of the library-written image
+            # live streams / directory cursors with queries on other fragment / data / metadata blocks between their steps
+            # (compressed blocks: the stream's buffer, the reader's scratch buffer and the compressor are in play)
+            aim = lifeleg.Aim(f)
+            if aim.usable() and LIFE_LEG:
+                for k in range(2 if quick else 6):
+                    cases.append(Case("%s-l%d" % (nm, k), p, hdr + lifeleg.history(rnd, aim, nops), "lifetime"))
+                stats["life_foreign"] = stats.get("life_foreign", 0) + aim.foreign
             cases.append(Case("%s-agree" % nm, p, ["A %d" % ref for ref, sz, nb in f["files"]][:400] +
                               ["XA %d" % i for i in range(min(f["xattr_ids"], 200))], "agree"))
             s = f["super"]
@@ -1084,6 +1118,8 @@ def run(ctx):
     ctx.coverage["xattr_fine_api_ops"] = stats.get("fine_ops", 0)
     ctx.coverage["xattr_cursor_ops_not_compared_with_model_after_alloc_failure"] = stats.get("kv_desync_skipped", 0)
     ctx.coverage["aliased_descriptors_in_images"] = stats.get("alias_descriptors", 0)
+    ctx.coverage["lifetime_leg_queries_on_another_fragment_block_while_a_stream_is_open"] = stats.get("life_foreign", 0)
+    ctx.coverage["lifetime_leg_fragment_blocks_of_crafted_image"] = stats.get("life_fragblocks", 0)
     ctx.coverage["distribution"] = dist
     rep_imm = rep_any = 0
     for case in cases:
@@ -1115,6 +1151,10 @@ def run(ctx):
                             "blocks, ~18 key/value blocks, shared out-of-line values backward/forward, hostile entries), its bit-flipped variants, "
                             "and the gensquashfs images; fresh side = a new reader that replays only the cursor-defining calls since the last "
                             "successful seek_kv (never the lookups, copies, re-loads), model side = XFineModel.xf_step.  "
+                            "Lifetime leg (props/C10/lifeleg.py): Builder image with >= 8 fragment blocks and every file layout; streams (by "
+                            "reference and on caller-supplied inodes) and directory cursors kept open while k >= 1 queries on ANOTHER fragment "
+                            "block / data block / metadata block run between any two of their steps (every layout x evicting query x read "
+                            "pattern systematically + random schedules of 2-4 live objects), the same schedules on the gensquashfs images.  "
                             "Error-exit leg (props/C10/errleg.py): Builder images (gzip/xz/lz4/zstd) with 17-44 hand-made hostile streams per codec "
                             "(xz dictionary above the memory limit, check ids, trailing bytes; gzip mid-block truncation, preset dictionary, bad "
                             "block type / distance / window; lz4 overruns; zstd window descriptors up to the largest, dictionary id, content size, "
